@@ -931,6 +931,11 @@ class Evaluator:
                 m = self._match_pat(s["pat"], v, env)
                 if m is False:
                     self.eval(s["els"], env, st)
+                elif m is None and self.iflet == "else":
+                    # the case reads undecided `if let` tests as failing: a let-else is one (its else block runs)
+                    self.eval(s["els"], env, st)
+                elif m is None and self.iflet == "then":
+                    pass  # ... or as holding: the pattern's bindings stand
                 elif m is None:
                     # not known whether the pattern holds: what the else block returns is a possible result of the function
                     # as well (`let Some(pos) = .. else { return false }; ..; true` is not simply `true`)
